@@ -150,6 +150,33 @@ def check(an, rep, tier):
             'of Q scaled by its largest modulus: the squares under- / '
             'overflow for representable tensors and all candidates tie',
             line=fn.node.lineno, file=mod.path)
+    # --- P-select: the candidates are re-ordered by decreasing norm at EVERY
+    # step (the first row is returned as the best one): the statements that
+    # apply the argsort permutation depend on the direction flag only
+    sel_names = {n_.targets[0].id for n_ in ast.walk(fn.node)
+                 if isinstance(n_, ast.Assign) and
+                 isinstance(n_.targets[0], ast.Name) and
+                 any(isinstance(c, ast.Call) and
+                     (prog.dotted(c.func) or '').endswith('argsort')
+                     for c in ast.walk(n_.value))}
+    n_sel = 0
+    for n_ in ast.walk(fn.node):
+        if isinstance(n_, ast.Assign) and \
+                any(isinstance(x, ast.Subscript) and any(
+                    isinstance(y, ast.Name) and y.id in sel_names
+                    for y in ast.walk(x.slice)) for x in ast.walk(n_.value)):
+            n_sel += 1
+            gs_ = paths.guard_atoms(paths.guards_of(fn.node, n_))
+            extra = [paths.src(mod, t) for t, pol in gs_
+                     if not (isinstance(t, ast.Name) and t.id == dir_par)]
+            rep.add('P-select', 'optima.optima_tt_beam',
+                    'selection #%d by the argsort permutation is '
+                    'unconditional' % n_sel,
+                    'ok' if not extra else 'violation',
+                    '' if not extra else 'the candidates are re-ordered only '
+                    'under %s: when the test fails the first candidate is not '
+                    'the one of largest norm, yet it is returned as the '
+                    'optimum' % extra, line=n_.lineno, file=mod.path)
     # --- ledger: the running matrix is the array that is re-scaled in place
     # by 2**p0 (found from that statement, whatever it is called)
     qname = None
@@ -339,4 +366,5 @@ def check(an, rep, tier):
     rep.floor('S-layout', 3, 'beam layouts')
     rep.floor('V-provenance', 4, 'value provenance')
     rep.floor('U-ledger', 4, 'beam ledger')
+    rep.floor('P-select', 2, 'candidate ordering')
     rep.floor('S-einsum', 2, 'beam contractions')
